@@ -76,6 +76,7 @@ fn main() {
         ("cache", "replay") => curve::cache_replay(&args, &mut s),
         ("reader", "replay") => reader::replay(&args, &mut s),
         ("reader", "relations") => reader::relations(&args, &mut s),
+        ("writer", "replay") => reader::writer_replay(&args, &mut s),
         ("records", "replay") => records::replay(&args, &mut s),
         ("records", "record") => records::record(&args, &mut s),
         ("pathcodec", "replay") => codec::path_replay(&args, &mut s),
